@@ -18,7 +18,9 @@ type foreignBuilder struct {
 	Features map[string]int
 }
 
-func newForeign(ch *Choices) *foreignBuilder { return &foreignBuilder{ch: ch, Features: map[string]int{}} }
+func newForeign(ch *Choices) *foreignBuilder {
+	return &foreignBuilder{ch: ch, Features: map[string]int{}}
+}
 
 func (f *foreignBuilder) int(v int32) {
 	switch f.ch.Intn(3, "f.intform") {
@@ -205,7 +207,36 @@ func hostileStream(ch *Choices) ([]byte, string) {
 func hostileStreamN(ch *Choices) ([]byte, string, int) {
 	var b bytes.Buffer
 	f := &foreignBuilder{ch: ch, Features: map[string]int{}}
-	switch ch.Intn(10, "hostile.kind") {
+	switch ch.Intn(12, "hostile.kind") {
+	case 10:
+		// a class definition that declares far more fields than it carries, then instances
+		declared := 1 << uint(ch.Range(10, 30, "clsdef.exp"))
+		present := ch.Range(0, 40, "clsdef.present")
+		b.WriteByte('C')
+		b.WriteByte(3)
+		b.WriteString("K10")
+		b.Write([]byte{'I', byte(declared >> 24), byte(declared >> 16), byte(declared >> 8), byte(declared)})
+		for i := 0; i < present; i++ {
+			b.WriteByte(2)
+			b.WriteByte('f')
+			b.WriteByte(byte('a' + i%26))
+		}
+		b.WriteByte(0x60)
+		b.WriteByte(0x91)
+		return b.Bytes(), fmt.Sprintf("class definition declaring %d fields with %d present", declared, present), 1
+	case 11:
+		// string / binary chunks that declare their maximum length but carry little, many times over
+		n := ch.Range(1, 200, "chunks.n")
+		b.WriteByte(0x57)
+		for i := 0; i < n; i++ {
+			if ch.Intn(2, "chunks.bin") == 1 {
+				b.Write([]byte{'B', 0xff, 0xff, 'x'})
+			} else {
+				b.Write([]byte{'S', 0xff, 0xff, 'x'})
+			}
+		}
+		b.WriteByte('Z')
+		return b.Bytes(), fmt.Sprintf("%d string / binary chunks declaring 65535 with one byte present", n), 1
 	case 8, 9:
 		// a LONG fixed-length list: more elements really present than any up-front allocation cap, with a
 		// declared length that is honest or inflated far beyond what the input holds
